@@ -45,7 +45,8 @@ def r4_r5(run, tree):
 def r6(run, tree):
     run.rule("C14.R6", "sort on load", "path rule", "", floor=3)
     lfold.check_load(run, tree)
-    dg.check_sortby(run, tree)
+    from . import core_folds as cf
+    cf.check_group_indexing(run, tree)
 
 
 RULES = [r1_r2, r3, r4_r5, r6]
